@@ -97,6 +97,29 @@ def gen_cases(rng, tier):
                         sep = bool(rng.random() < 0.5)
                         cases.append(("directional", dict(dim=dim, n=n_pts, nf=nf, nb=nb, est=est, nd=nd, sep=sep, bw=bw),
                                       (f, edges, pos, np.ascontiguousarray(dirs), tol, bw, sep, est)))
+        # "rich" estimator cases: enough points, several fields with different NaN patterns, bins covering the
+        # whole distance range, wide and narrow cones — so that every branch of the pair loop is taken many times
+        for rich in range(10):
+            dim = int(rng.integers(1, 4))
+            n_pts = int(rng.integers(10, 24))
+            nf = int(rng.integers(2, 4))
+            est = "m" if rich % 2 == 0 else "c"
+            pos = special_values(rng, (dim, n_pts), "int" if rich % 3 == 0 else "normal")
+            f = special_values(rng, (nf, n_pts), "normal")
+            f[rng.random(size=f.shape) < 0.25] = np.nan
+            dmax = float(np.sqrt(((pos.max(axis=1) - pos.min(axis=1)) ** 2).sum())) + 0.5
+            nb = int(rng.integers(2, 6))
+            edges = np.linspace(0.0, dmax, nb + 1)
+            cases.append(("unstructured", dict(dim=dim, n=n_pts, nf=nf, nb=nb, est=est, dist="e", rich=True), (f, edges, pos, est, "e")))
+            if dim >= 2:
+                nd = int(rng.integers(1, 4))
+                dirs = rng.normal(size=(nd, dim))
+                dirs /= np.linalg.norm(dirs, axis=1)[:, None]
+                tol = float(rng.choice([np.pi / 2, 1.0, 0.4]))
+                bw = float(rng.choice([-1.0, 1.5, 4.0]))
+                sep = bool(rich % 2)
+                cases.append(("directional", dict(dim=dim, n=n_pts, nf=nf, nb=nb, est=est, nd=nd, sep=sep, bw=bw, rich=True),
+                              (f, edges, pos, np.ascontiguousarray(dirs), tol, bw, sep, est)))
         for (nx, ny) in [(1, 1), (2, 1), (3, 2), (5, 4), (9, 3), (17, 5)]:
             for est in ("m", "c"):
                 f = special_values(rng, (nx, ny), "normal")
@@ -125,6 +148,54 @@ def call_impl(mod, fn, args, num_threads=None):
         else:
             r = getattr(mod, fn)(*a, num_threads=num_threads)
     except ValueError:
+        return "ValueError"
+    return r
+
+
+def strided_variants(rng, args):
+    """the same argument values held in NON-contiguous / offset views (step-2 slices of a larger buffer, Fortran order):
+    the kernels take strided memoryviews, so results must not depend on the memory layout"""
+    out = []
+    for which in range(len(args)):
+        a = args[which]
+        if not isinstance(a, np.ndarray) or a.size == 0 or a.dtype == bool:
+            continue
+        new = list(args)
+        if a.ndim == 1:
+            buf = np.full(2 * a.shape[0] + 3, 7.25)
+            buf[1:1 + 2 * a.shape[0]:2] = a
+            new[which] = buf[1:1 + 2 * a.shape[0]:2]
+        elif a.ndim == 2:
+            if rng.random() < 0.5:
+                new[which] = np.asfortranarray(a)
+            else:
+                buf = np.full((2 * a.shape[0] + 1, 2 * a.shape[1] + 1), -3.5)
+                buf[1::2, 1::2][:a.shape[0], :a.shape[1]] = a
+                new[which] = buf[1::2, 1::2][:a.shape[0], :a.shape[1]]
+        else:
+            continue
+        assert not (new[which].flags["C_CONTIGUOUS"] and new[which].ndim == 1 and a.shape[0] > 1) or a.shape[0] <= 1
+        out.append((which, tuple(new)))
+    return out
+
+
+def call_spec(drv, fn, args):
+    a = list(args)
+    enc = []
+    for x in a:
+        if isinstance(x, str):
+            enc.append(("z", ord(x)))
+        elif isinstance(x, (bool, np.bool_)):
+            enc.append(bool(x))
+        elif isinstance(x, float):
+            enc.append(float(x))
+        else:
+            x = np.asarray(x)
+            if x.dtype == bool:
+                x = x.astype(np.int64)
+            enc.append(x)
+    r = drv.call("spec:" + fn, *enc)
+    if r is None:
         return "ValueError"
     return r
 
@@ -232,7 +303,7 @@ def run(ctx):
         ctx.notes.append("OpenMP build of %s failed: %s" % (k, v))
     try:
         cases = gen_cases(rng, ctx.tier)
-        n_model = n_src = n_thr = 0
+        n_model = n_src = n_thr = n_lay = 0
         for fn, meta, args in cases:
             ref = call_impl(so[MOD_OF[fn]], fn, args)
             key = (fn,) + tuple(sorted(meta.items()))
@@ -254,6 +325,25 @@ def run(ctx):
                                            model=describe([r] if not isinstance(r, tuple) else list(r))),
                                       key="%s:model-vs-so" % fn)
                         break
+            # hand-written specification (defining sums / pair enumeration) vs .so
+            if drv is not None and fn != "summate_incompr":
+                r = call_spec(drv, fn, args)
+                n_model += 1
+                if not same(ref, r):
+                    ctx.violation("correspondence: defining sums (specification of %s) vs compiled .so" % fn,
+                                  "the compiled kernel does not return its defining sums on %s" % fn,
+                                  dict(case, expected_spec=describe([r] if not isinstance(r, tuple) else list(r)),
+                                       so=describe([ref] if not isinstance(ref, tuple) else list(ref))),
+                                  key="%s:spec-vs-so" % fn)
+            # memory layout: strided / Fortran-ordered views of the same values
+            for which, vargs in strided_variants(rng, args):
+                r = call_impl(so[MOD_OF[fn]], fn, vargs)
+                n_lay += 1
+                if not same(ref, r):
+                    ctx.violation("layout: %s with argument %d as a non-contiguous view" % (fn, which),
+                                  "the compiled kernel's result depends on the memory layout of an argument",
+                                  dict(case, strided_argument=which), key="%s:layout" % fn)
+                    break
             # plain interpretation of the source vs .so
             if src is not None:
                 r = call_impl(src[MOD_OF[fn]], fn, args)
@@ -280,7 +370,7 @@ def run(ctx):
                                           "result depends on the number of threads", dict(case, num_threads=nt),
                                           key="%s:threads" % fn)
                             break
-        ctx.notes.append("model runs %d, source-interpretation runs %d, thread-count runs %d" % (n_model, n_src, n_thr))
+        ctx.notes.append("model+spec runs %d, source-interpretation runs %d, thread-count runs %d, layout-variant runs %d" % (n_model, n_src, n_thr, n_lay))
         big_shapes(ctx, rng, so, ompm)
         wrapper_probes(ctx, rng)
     finally:
